@@ -392,7 +392,11 @@ let run_line c kt (st : st) (line : string) (impl_line : string) : string =
             let head =
               match res with
               | Ok x -> "ok ret=" ^ ret_str x
-              | Err e -> "err kind=" ^ err_kind e
+              | Err e ->
+                  (* every cause that holds of this call before signing is an admissible kind (the order in which an
+                     implementation looks for them is not part of any property) *)
+                  let ks = List.sort_uniq compare (List.map err_kind (e :: presign_causes c kt r o k)) in
+                  "err kind=" ^ err_kind e ^ " kinds=" ^ String.concat "+" ks
               | Panic -> "panic model"
             in
             Printf.sprintf "%s %s vfy=- %s" head (show ()) (rec_obs c kt r'))
